@@ -155,7 +155,7 @@ def capture_origin(prog, closure_fn, origin):
             break
     if idx is None:
         return None
-    parent = prog.fns.get(closure_fn.parent)
+    parent = prog.fns.get(closure_fn.parent) or getattr(prog, "inlined_fns", {}).get(closure_fn.parent)
     if parent is None:
         return None
     for bi, b in enumerate(parent.blocks):
@@ -297,7 +297,7 @@ def call_count_range(prog, fn, pred, stop_block=None, _stack=()):
 def closure_consumer(prog, closure_fn):
     """The call in the parent function that receives closure `closure_fn` as an argument:
     returns (parent_fn, Call, arg_index) or None."""
-    parent = prog.fns.get(closure_fn.parent)
+    parent = prog.fns.get(closure_fn.parent) or getattr(prog, "inlined_fns", {}).get(closure_fn.parent)
     if parent is None:
         return None
     for c in parent.calls:
